@@ -16,7 +16,8 @@ from . import common as C
 THEOREMS = [
     "chan_shape", "chan_shape_design_counterexample", "fifo_conservation", "scan_ready_sound", "pick_in_range",
     "select_choice_ready", "scan_default", "select_default", "close_semantics", "closed_later_ops",
-    "nil_never_proceeds", "no_lost_wakeup", "wake_removes_all_entries", "awake_count", "deadlock_report_iff",
+    "nil_never_proceeds", "no_lost_wakeup", "wake_removes_all_entries", "blocked_not_possible", "awake_count",
+    "deadlock_report_iff",
 ]
 
 SIG_SELECT_SEND = "C03 close chan=open blocked=select-send-case closer-panics-send-on-closed selector-not-woken"
